@@ -16,7 +16,7 @@
 
 namespace nodesim {
 
-enum MempoolOp { MP_TX = 200, MP_PKG, MP_PRIO, MP_MINE, MP_REORG, MP_CLOCK, MP_TEMPLATE, MP_RESUBMIT, MP_NOPS_END };
+enum MempoolOp { MP_TX = 200, MP_PKG, MP_PRIO, MP_MINE, MP_REORG, MP_CLOCK, MP_TEMPLATE, MP_RESUBMIT, MP_TIPDOWN, MP_NOPS_END };
 
 enum TxShape { TS_SIMPLE = 0, TS_CHAIN, TS_FANIN, TS_FANOUT, TS_CONFLICT, TS_TRUC, TS_DUSTY_PARENT, TS_BELOW_MINFEE, TS_NONSTANDARD, TS_INVALID, TS_WITNESS_VARIANT, TS_NSHAPES };
 enum PkgShape { PS_CHILD_WITH_PARENTS = 0, PS_CPFP, PS_UNSORTED, PS_DUPLICATE, PS_INTERNAL_CONFLICT, PS_GRANDPARENT, PS_TWO_CHILDREN, PS_TOO_MANY, PS_PARENT_IN_MEMPOOL, PS_SINGLE, PS_CONFLICTS_MEMPOOL, PS_NSHAPES };
